@@ -293,8 +293,21 @@ func TestVerif_C20Processor(t *testing.T) {
 					refusalSince = true
 				}
 			}
-			if stopLines < 5 {
-				c.Inconclusive(fmt.Sprintf("only %d stop-failure lines in 120 frames", stopLines))
+			stopFailures := 0
+			for _, st := range fr.steps {
+				for _, op := range st.Ops[sinkConst] {
+					if op.Op == opStop && op.Err {
+						stopFailures++
+					}
+				}
+			}
+			if stopFailures < 5 {
+				c.Inconclusive(fmt.Sprintf("only %d failing stops of the continuous sink in 120 frames", stopFailures))
+				return
+			}
+			if stopLines != stopFailures {
+				// each stop failure follows a refusal line and is followed by one: never a repeat of the last printed line
+				c.Violation("distinct-message-lost", "stop failures interleaved with a recurring refusal", fmt.Sprintf("the continuous sink's stop failed %d times, each time after a different line had been printed; the log holds %d such lines", stopFailures, stopLines))
 				return
 			}
 			if lonely > 0 {
